@@ -37,7 +37,7 @@ Definition args_ok_b (idx : iindex) (o : op) : bool :=
   | OSetIf k v => set_if_ok_b idx k v
   | OFiltered mask => Z.of_nat (length mask) =? nrows idx
   | OCollapsed prec _ => collapse_ok_b idx prec
-  | OSliced orders => orders_ok_b orders (hshape idx)
+  | OSliced orders => is_nil orders || orders_ok_b orders (hshape idx)
   | OColumnStack pre post _ => cs_args_ok_b (pre ++ idx :: post)
   | OGetForce _ | OItemsForce | OToDictForce | OCommonRowids _ | OSlices1d => true
   end.
@@ -54,7 +54,7 @@ Proof.
   - apply set_if_ok_b_sound. exact H.
   - apply Z.eqb_eq. exact H.
   - apply collapse_ok_b_sound. exact H.
-  - apply orders_ok_b_sound. exact H.
+  - apply orb_true_iff in H. destruct H as [H|H]; [left; destruct orders; [reflexivity|discriminate]|right; apply orders_ok_b_sound; exact H].
   - apply cs_args_ok_b_sound. exact H.
 Qed.
 
